@@ -1058,13 +1058,16 @@ def r_cid_format(model, rep):
     # Release/BaseProduct.type_suffix: '' for ga/None, '-' + lower otherwise
     g = model.own_method("composeinfo.BaseProduct", "type_suffix")
     gcx = facts.fctx(model, g)
-    rets = [ev for ev in gcx.events if ev.kind == "return"]
-    empty = [r for r in rets if r.value == ("const", "")]
-    dash = [r for r in rets if r.value == T.fmt("-", ("call", ("attr", ("attr", ("param", gcx.selfname), "type"), "lower"), (), ()))]
-    ok = len(empty) == 1 and len(dash) == 1 and len(rets) == 2
-    if ok:
-        gd = empty[0].guards[-1]
-        ok = gd[1] and T.contains(gd[0], lambda x: x == ("const", "ga")) and T.contains(gd[0], lambda x: x[0] == "unary" and x[1] == "not")
+    # (case by case, whatever the spelling: one test with 'or', two guard clauses, a conditional expression)
+    ty = ("attr", ("param", gcx.selfname), "type")
+    low = ("call", ("attr", ty, "lower"), (), ())
+    is_ga = ("cmp", ("==",), (low, ("const", "ga")))
+    ok = True
+    for set_ in (False, True):
+        for ga_ in (False, True):
+            vals = [T.degate(v) for v in facts.Scenario(gcx, atoms={ty: set_, is_ga: ga_}).returns()]
+            want = ("const", "") if (not set_ or ga_) else T.fmt("-", low)
+            ok = ok and vals == [want]
     rep.ob("R-BP-SUFFIX", "BaseProduct.type_suffix", ok, site=gcx.site(g.node),
            msg="" if ok else "type_suffix must be '' for ga/unset and '-' + lower-cased type otherwise")
     if "type_suffix" in model.cls("composeinfo.Release").methods:
